@@ -19,16 +19,31 @@ def Call.last (c : Call) : Bool := hasFlag c.flags blkLastBlock
 /-- the call appends to the file (condition of line 138 of block_writer.c) -/
 def Call.stored (c : Call) : Bool := c.data.length != 0 && !hasFlag c.flags blkIsSparse
 
-/-- payload of the file being assembled, after one more call -/
-def payloadStep (acc : Bytes) (c : Call) : Bytes :=
-  (if c.first then [] else acc) ++ (if c.stored then c.data else [])
+/-- a stored block as the history sees it: upper and lower half of the 64-bit `hash`, and the bytes -/
+structure Blk where
+  word : Nat
+  chk  : UInt32
+  data : Bytes
+deriving DecidableEq, Repr
 
-/-- per call: `some payload` when the call ends a file, else `none` (`acc` = payload so far) -/
-def payloads (acc : Bytes) : List Call → List (Option Bytes)
+/-- concatenated bytes of a list of stored blocks -/
+def blkBytes : List Blk → Bytes
+  | [] => []
+  | b :: r => b.data ++ blkBytes r
+
+def Call.blk (c : Call) : Blk := ⟨mkWord c.data.length c.flags, c.chk, c.data⟩
+def Call.dontDedup (c : Call) : Bool := hasFlag c.flags blkDontDeduplicate
+
+/-- stored blocks of the file being assembled, after one more call -/
+def fileStep (acc : List Blk) (c : Call) : List Blk :=
+  (if c.first then [] else acc) ++ (if c.stored then [c.blk] else [])
+
+/-- per call: `some blocks` when the call ends a file, else `none` (`acc` = stored blocks so far) -/
+def files (acc : List Blk) : List Call → List (Option (List Blk))
   | [] => []
   | c :: cs =>
-    let acc' := payloadStep acc c
-    (if c.last then some acc' else none) :: payloads acc' cs
+    let acc' := fileStep acc c
+    (if c.last then some acc' else none) :: files acc' cs
 
 /-- Protocol the block processor follows (frontend.c: the first block of a file carries `FIRST`, the
 sentinel / last block carries `LAST`; fragment blocks carry neither and are written between files):
@@ -43,17 +58,38 @@ def wf (opened : Bool) : List Call → Bool
 /-- every block fits the 24-bit size field of the history word -/
 def sizesOk (cs : List Call) : Prop := ∀ c ∈ cs, c.data.length < 2 ^ 24
 
-/-- The oracle: every file location handed out so far still holds that file's payload. -/
-def readbackOk (file : Bytes) : List (Option Bytes) → List Nat → Bool
+/-- **The oracle.** Every file location handed out so far still holds that file's bytes:
+`file[loc, loc + n) = concatenation of the file's stored blocks`. -/
+def readbackOk (file : Bytes) : List (Option (List Blk)) → List Nat → Bool
   | [], [] => true
   | none :: ps, _ :: ls => readbackOk file ps ls
-  | some p :: ps, loc :: ls => (slice file loc p.length == p) && readbackOk file ps ls
+  | some b :: ps, loc :: ls => (slice file loc (blkBytes b).length == blkBytes b) && readbackOk file ps ls
   | _, _ => false
 
-/-- the own location of a file = where its first stored block went; `none` when nothing was stored -/
-def sharedWithEarlier (ownLoc : Option Nat) (loc : Nat) : Bool :=
-  match ownLoc with
-  | none => false
-  | some o => loc < o
+/-- a location handed out for a non-empty file -/
+structure Rec where
+  loc  : Nat
+  blks : List Blk
+deriving DecidableEq, Repr
+
+/-- all (location, blocks) pairs handed out for non-empty files -/
+def recsOf (acc : List Blk) : List Call → List Nat → List Rec
+  | c :: cs, loc :: ls =>
+    let acc' := fileStep acc c
+    if c.last && !acc'.isEmpty then ⟨loc, acc'⟩ :: recsOf acc' cs ls else recsOf acc' cs ls
+  | _, _ => []
+
+/-- **Sharing is complete.** A non-empty file written without `DONT_DEDUPLICATE` whose stored blocks (sizes,
+raw/compressed bits, checksums and bytes) equal those of an earlier file gets a location at or before that
+earlier file's location (it is *the earliest* matching run, so it lies at or before every equal predecessor),
+i.e. its own copy is given up.  `recs` = files seen before. -/
+def shareCompleteOk (recs : List Rec) (acc : List Blk) : List Call → List Nat → Bool
+  | [], [] => true
+  | c :: cs, loc :: ls =>
+    let acc' := fileStep acc c
+    (if c.last && !acc'.isEmpty && !c.dontDedup
+      then recs.all (fun r => decide (r.blks = acc' → loc ≤ r.loc)) else true)
+    && shareCompleteOk (if c.last && !acc'.isEmpty then recs ++ [⟨loc, acc'⟩] else recs) acc' cs ls
+  | _, _ => false
 
 end Sqfs.BlockWriter
